@@ -15,6 +15,10 @@ streams
           accented / Greek / Cyrillic initials, multi-character transliterations, sub-entries, formats) parsed by the real
           code; the request line is the sequence of transliterated upper-cased first characters in the order of the sorted
           index; observation = (title, id, number of entries) per group; oracle = ids pairwise distinct.
+  nav   : the navigation entries the parser registers (Macro.setLinkType -> userdata['links'], read by SectionUtils.links):
+          documents made of \\printindex, theindex environments (the form makeindex writes), thebibliography environments and
+          sections in random order, parsed by the real code; observation per key = which construct registered the entry
+          and whether the registered object is a node of the document tree.
   post  : Renderer.processFileContent of the HTML5 and XHTML renderers on pages made of paragraphs, table cells, blanks,
           text, empty anchors (index targets), empty elements with an id and links: the identifiers and hrefs of the page
           must survive the post-processing step unchanged (Spec.Links.pageIds / pageHrefs).
@@ -41,7 +45,8 @@ LEVEL_TEXT = ('Lean 4 theorems over a line-by-line model of Macro.id/idgen, Rend
               'Renderable.__str__ (Model/Render.lean) writes the node\'s own template output. Footnotes: the mark of a footnote is printed in the file of its own URL, its text by the layout '
               'of the section SectionUtils.footnotes finds by walking currentSection until a section has a filename; footnote_mark_lands proves both are the same produced file whenever only '
               'sections create files, footnote_mark_lands_of_document for every filename template (a template naming a single file forces level -10: effSplit), every split level below '
-              'ENDSECTIONS_LEVEL and every document (prepared_navOK). Index page: index_group_ids_unique proves that the group headings (one navigation link #id and one heading id per group) have '
+              'ENDSECTIONS_LEVEL and every document (prepared_navOK). up_and_breadcrumb_links_land: the up/parent entry and every breadcrumb of SectionUtils.links is the URL of an ancestor node computed with that ancestor\'s own chain, so it lands. Navigation entries: nav_entries_are_document_nodes proves that whatever commands, \\begin and \\end instances of link-type macros '
+              'the parser invokes, every entry of userdata[links] (links.index.url of the layouts) is a node of the document, never the throw-away \\end instance. Index page: index_group_ids_unique proves that the group headings (one navigation link #id and one heading id per group) have '
               'pairwise distinct ids for every sequence of entries in any order and any transliteration (model of IndexUtils.groups, Model/UrlsIndex.lean), index_every_entry_grouped that no entry is lost. The model is tied to the real code by differential execution of abstract trees through the real '
               'Renderer with stub templates; which templates emit id=/href= is carried by the document stream doc14 '
               '(real HTML5 default/minimal and XHTML default themes, output parsed with html.parser).')
@@ -277,6 +282,46 @@ def run_post(line):
     return ';'.join(out)
 
 
+# ---------------------------------------------------------------- nav stream (userdata['links'] registered by the parser)
+
+NAVTEX = {'I': '\\printindex', 'X': '\\begin{theindex} \\item alpha, 1 \\end{theindex}',
+          'B': '\\begin{thebibliography}{9}\\bibitem{k} Author\\end{thebibliography}', 'S': '\\section{Title} text\\index{alpha}'}
+NAVNAME = {'printindex': 'I', 'theindex': 'X', 'thebibliography': 'B', 'section': 'S'}
+
+
+def gen_nav_case(rng, origin='gen'):
+    return Case('nav', ' '.join(rng.choice('SSIXXB') for _ in range(rng.randint(1, 6))), {'cls': rng.choice(['article', 'book'])}, origin)
+
+
+def run_nav(case):
+    """parse a document made of the constructs; for every key of userdata['links']: which construct (position in
+    the source) registered it and whether the registered object is a node of the document tree"""
+    from plasTeX.TeX import TeX, TeXDocument
+    doc = TeXDocument()
+    tex = TeX(doc)
+    tex.input('\\documentclass{%s}\\usepackage{makeidx}\\makeindex\\begin{document}\n%s\n\\end{document}' %
+              (case.meta.get('cls', 'article'), '\n\n'.join(NAVTEX[w] for w in case.line.split())))
+    tex.parse()
+    order = []
+
+    def walk(n):
+        if getattr(n, 'nodeName', None) in NAVNAME:
+            order.append(n)
+        for k in getattr(n, 'childNodes', []) or []:
+            walk(k)
+    walk(doc)
+    links = doc.userdata.get('links', {})
+    out = []
+    for key in ('bibliography', 'index'):
+        v = links.get(key)
+        if v is None:
+            out.append('%s=-' % key)
+            continue
+        pos = [i for i, n in enumerate(order) if n is v]
+        out.append('%s=%s' % (key, '%d:tree' % pos[0] if pos else 'x:detached'))
+    return ','.join(out)
+
+
 def generate(ctx):
     rng = ctx.rng
     n = 2000 if ctx.tier == 'quick' else 24000
@@ -288,6 +333,8 @@ def generate(ctx):
         yield gen_idx_case(rng)
     for _ in range(n // 4):
         yield gen_post_case(rng)
+    for _ in range(n // 20):
+        yield gen_nav_case(rng)
 
 
 def corpus():
@@ -442,8 +489,10 @@ def run_url(line):
                 for s in rootnode.allSections:
                     if s.filename:
                         lk = s.links
-                        obs['N'].append('%s~%s' % (fmt(str(lk['next'].url), fmap, idname) if lk['next'] is not None else '-',
-                                                   fmt(str(lk['prev'].url), fmap, idname) if lk['prev'] is not None else '-'))
+                        obs['N'].append('%s~%s~%s~%s' % (fmt(str(lk['next'].url), fmap, idname) if lk['next'] is not None else '-',
+                                                         fmt(str(lk['prev'].url), fmap, idname) if lk['prev'] is not None else '-',
+                                                         fmt(str(lk['up'].url), fmap, idname) if lk['up'] is not None else '-',
+                                                         '>'.join(fmt(str(c.url), fmap, idname) for c in lk['breadcrumbs'])))
                 for s in order:
                     if s.filename and hasattr(s, 'footnotes'):
                         for fn in s.footnotes:           # what the layout of this file prints in its footer
@@ -560,6 +609,11 @@ _FIRST = [None]
 
 
 def impl(case, aux):
+    if case.stream == 'nav':
+        try:
+            return run_nav(case)
+        except Exception as e:
+            return canon_exc(e)
     if case.stream == 'post':
         try:
             return run_post(case.line)
@@ -611,9 +665,9 @@ def oracle(obs, base):
     nexts = []
     if p['N'] != '*':
         for i, x in enumerate([x for x in p['N'].split(',') if x]):
-            nx, pv = x.split('~')
-            for y in (nx, pv):
-                if y != '-':
+            nx, pv, up, crumbs = x.split('~')
+            for y in [nx, pv, up] + crumbs.split('>'):
+                if y != '-' and y != '':
                     links.append(y)
             nexts.append(nx)
     for x in [x for x in p['R'].split(',') if x]:
@@ -650,6 +704,11 @@ def oracle(obs, base):
 
 def judge(o):
     o.corr_ok = (o.impl == o.model)
+    if o.case.stream == 'nav':
+        o.prop_ok = 'detached' not in o.impl and not o.impl.startswith('err:') and o.spec == 'ok'
+        if not o.prop_ok:
+            o.note = 'a navigation entry of userdata[links] is not a node of the document: its URL names nothing that is rendered'
+        return
     if o.case.stream == 'post':
         o.prop_ok = o.corr_ok          # the model *is* the requirement: identifiers and links survive post-processing
         if not o.prop_ok:
@@ -679,12 +738,26 @@ def nontrivial(o):
         return o.impl.count(';') >= 1
     if o.case.stream == 'post':
         return 'A=' in o.case.line and 'P' in o.case.line.split()
+    if o.case.stream == 'nav':
+        return 'tree' in o.impl
     p = parse_obs(o.impl)
     return p['F'].count('=') >= 2 and '#' in p['U'] and (p['T'] != '' or '~' in p['R'])
 
 
 def shrink(ctx, o, evaluate):
     """drop subtrees / references while the failure persists"""
+    if o.case.stream == 'nav':
+        best, improved = o, True
+        while improved:
+            improved = False
+            w = best.case.line.split()
+            for i in range(len(w)):
+                if len(w) > 1:
+                    r = evaluate([Case('nav', ' '.join(w[:i] + w[i + 1:]), dict(best.case.meta), 'shrink')])[0]
+                    if ((not r.prop_ok) if not o.prop_ok else (not r.corr_ok)):
+                        best, improved = r, True
+                        break
+        return best
     if o.case.stream == 'post':
         best, improved = o, True
         while improved:
@@ -756,7 +829,7 @@ def search(ctx, evaluate, corr_bad):
                                  {'kind': 'failing-input', 'outcome': s.to_json()})
     rng = _random.Random(ctx.seed + 7919)
     cases = ([gen_url_case(rng, 'search') for _ in range(4000)] + [gen_url_case(rng, 'search', big=True) for _ in range(400)] +
-             [gen_idx_case(rng, 'search') for _ in range(400)] + [gen_post_case(rng, 'search') for _ in range(2000)])
+             [gen_idx_case(rng, 'search') for _ in range(400)] + [gen_post_case(rng, 'search') for _ in range(2000)] + [gen_nav_case(rng, 'search') for _ in range(300)])
     bad = [o for o in evaluate(cases) if not o.prop_ok]
     if bad:
         o = shrink(ctx, bad[0], evaluate)
